@@ -96,14 +96,18 @@ Section Rename.
   Definition count_id (id : resid) (m : list resource) : nat :=
     List.length (filter (fun x => id_equals id (cur_id cs x)) m).
 
-  (* NamespaceTransformerPlugin.Transform *)
+  (* NamespaceTransformerPlugin.Transform: what happens to one resource *)
+  Definition ns_one (ns : string) (r : resource) : res resource :=
+    let r1 := store_previous_id cs r in
+    do n' <- ns_filter ns (r_node r1);
+    Ok (with_node r1 n').
+
+  (* ... and the loop with its id-conflict test against the whole (partially updated) map *)
   Fixpoint ns_loop (ns : string) (done todo : list resource) : res (list resource) :=
     match todo with
     | [] => Ok done
     | r :: t =>
-        let r1 := store_previous_id cs r in
-        do n' <- ns_filter ns (r_node r1);
-        let r2 := with_node r1 n' in
+        do r2 <- ns_one ns r;
         if Nat.eqb (count_id (cur_id cs r2) (done ++ r2 :: t)%list) 1
         then ns_loop ns (done ++ [r2])%list t
         else Err
@@ -115,16 +119,19 @@ Section Rename.
   Definition set_name (v : string) (n : node) : res node :=
     do r <- put nonstr [PKey "metadata"] "name" (Scalar TNone SPlain v) n; Ok (fst r).
 
-  (* HashTransformerPlugin.Transform; [hs] = the hash of each resource (external: api/hasher) *)
+  (* HashTransformerPlugin.Transform on one resource; [h] = its content hash (external: api/hasher) *)
+  Definition hash_one (h : string) (r : resource) : res resource :=
+    if r_needs_hash r then
+      let r1 := store_previous_id cs r in
+      do n' <- set_name (get_name (r_node r1) ++ "-" ++ h) (r_node r1);
+      Ok (with_node r1 n')
+    else Ok r.
+
   Fixpoint hash_transform (hs : list string) (m : list resource) : res (list resource) :=
     match m, hs with
     | [], _ => Ok []
     | r :: t, h :: hs' =>
-        do r' <- (if r_needs_hash r then
-                    let r1 := store_previous_id cs r in
-                    do n' <- set_name (get_name (r_node r1) ++ "-" ++ h) (r_node r1);
-                    Ok (with_node r1 n')
-                  else Ok r);
+        do r' <- hash_one h r;
         do t' <- hash_transform hs' t;
         Ok (r' :: t')
     | _ :: _, [] => Err
